@@ -5,6 +5,7 @@ from sa.exc import ExcAnalysis
 from sa.dataflow import cmp_key, cmp_atoms
 from rules.common import allocation_filters
 
+TECHNIQUE = 'static analysis (ast): must-pass-through rule (membership test dominates every request construction, interprocedural), exception discipline around validation, comparator normal form of Box membership, constructor-plumbing rules over the space class hierarchy'
 EXPLANATION = (
     "Decides the structural clauses of C17: (S1) PortfolioSpace.make_rebalancing_request raises under `action not in self` and that "
     "test dominates _make_allocation and the Rebalancing construction; (S2) TradingEnv.step builds the request (outside any handler that "
